@@ -74,7 +74,7 @@ class CComp(fm.TimeComponent):
 def fixpoint(spec):
     """Least fix-point of 'can complete' over the declared exchanges (independent of finam)."""
     comps = spec["comps"]
-    links = spec["links"]  # (src comp, out, dst comp, in)
+    links = [l[:4] for l in spec["links"]]  # (src comp, out, dst comp, in[, shared pass-through adapter key])
     src_of = {(d, i): (s, o) for (s, o, d, i) in links}
     consumers = {}
     for (s, o, d, i) in links:
@@ -134,8 +134,19 @@ def h_connect(ctx):
         comps[n] = CComp(n, k, base if off is None else base + off, spec["comps"][n])
     listed = [comps[names[i]] for i in perm]
     composition = hlib.make_composition(listed)
-    for (s, o, d, i) in spec["links"]:
-        comps[s].outputs[o] >> comps[d].inputs[i]
+    shared = {}
+    for l in spec["links"]:
+        s, o, d, i = l[:4]
+        via = l[4] if len(l) > 4 else None
+        if via is None:
+            comps[s].outputs[o] >> comps[d].inputs[i]
+        else:
+            if via not in shared:  # one pass-through adapter instance shared by all links naming it
+                shared[via] = fm.adapters.Scale(1.0)
+                comps[s].outputs[o] >> shared[via]
+            shared[via] >> comps[d].inputs[i]
+    for (s, o) in spec.get("dangling_adapters", []):
+        comps[s].outputs[o] >> fm.adapters.Scale(1.0)  # an adapter nobody reads from
     expected = fixpoint(spec)
     calls = [0]
     bad = []
@@ -202,7 +213,7 @@ def h_connect(ctx):
                 ctx.check(has_own, "no-publication-for-own-start", {"sig": n})
             for i, s in c.spec.get("inputs", {}).items():
                 if s.get("pull"):
-                    srcn = [sn for (sn, so, d, ii) in spec["links"] if d == n and ii == i][0]
+                    srcn = [l[0] for l in spec["links"] if l[2] == n and l[3] == i][0]
                     got = float(hlib.tagval(h.in_data[i]))
                     ctx.check(got == float(1000 * comps[srcn].idx), "initial-pull-wrong-value",
                               {"sig": f"{n}.{i}"})
@@ -260,6 +271,21 @@ SCENARIOS = [
               "outputs": {"o": {"info": "declared", "deps": []}}},
         "Y": {"inputs": {"i": D()}}},
      "links": [("X", "o", "A", "i"), ("A", "o", "Y", "i")]},
+    {"name": "branch_behind_adapter", "comps": {
+        "C1": {"inputs": {"i": D()}},
+        "P": {"outputs": {"o": {"info": "declared", "deps": []}}},
+        "C2": {"inputs": {"i": D()}}},
+     "links": [("P", "o", "C1", "i", "S"), ("P", "o", "C2", "i", "S")]},
+    {"name": "unused_adapter", "comps": {
+        "P": {"outputs": {"o": {"info": "declared", "deps": []}}},
+        "C1": {"inputs": {"i": D()}}},
+     "links": [("P", "o", "C1", "i")], "dangling_adapters": [("P", "o")]},
+    {"name": "branch_behind_adapter_transfer", "comps": {
+        "C1": {"inputs": {"i": D()}},
+        "X": {"outputs": {"o": {"info": "declared", "deps": []}}},
+        "P": {"inputs": {"i": D()}, "outputs": {"o": {"info": "rule_in:i", "deps": ["i"]}}},
+        "C2": {"inputs": {"i": D(False)}}},
+     "links": [("X", "o", "P", "i"), ("P", "o", "C1", "i", "S"), ("P", "o", "C2", "i", "S")]},
     {"name": "partly_stuck", "comps": {
         "A": {"inputs": {"i": D()}, "outputs": {"o": {"info": "declared", "deps": ["i"]}}},
         "B": {"inputs": {"i": D()}, "outputs": {"o": {"info": "declared", "deps": ["i"]}}},
@@ -286,7 +312,7 @@ EXPLANATION = (
     "every single ConnectHelper.connect call is checked for status vs. observed progress. The dependency shapes are a "
     "finite catalogue -- the solver's part is path feasibility, the orders, and the start-time arithmetic."
 )
-ASSUMPTIONS = ["catalogue of 10 dependency scenarios (vf/props/c06.py SCENARIOS), up to 4 components"]
+ASSUMPTIONS = ["catalogue of 13 dependency scenarios (incl. links branching behind a shared pass-through adapter and an adapter nobody reads from) (vf/props/c06.py SCENARIOS), up to 4 components"]
 
 
 def families(tier):
